@@ -3,6 +3,7 @@ import Driver.SszDriver
 import Driver.BoardDriver
 import Driver.AlgDriver
 import Driver.NodeDriver
+import Driver.AirDriver
 
 open Driver
 
@@ -45,12 +46,21 @@ partial def loopNode (h : IO.FS.Stream) (out : IO.FS.Stream) (st : Dc4bcVerif.Mo
   out.putStrLn o
   loopNode h out st'
 
+partial def loopAir (h : IO.FS.Stream) (out : IO.FS.Stream) (m : AirM) : IO Unit := do
+  let line ← h.getLine
+  if line.isEmpty then return ()
+  let toks := (line.trimAscii.toString.splitOn " ").filter (· != "")
+  let (m', o) := airStep m toks
+  out.putStrLn o
+  loopAir h out m'
+
 def main (args : List String) : IO UInt32 := do
   let stdin ← IO.getStdin
   let stdout ← IO.getStdout
   match args with
   | ["fsm"] => loopFsm stdin stdout {}; pure 0
   | ["node"] => loopNode stdin stdout { self := "" }; pure 0
+  | ["air"] => loopAir stdin stdout Dc4bcVerif.Model.Air.fresh; pure 0
   | ["alg"] => loopAlg stdin stdout {}; pure 0
   | ["board"] => loopBoard stdin stdout []; pure 0
   | ["ssz"] => loopSsz stdin stdout ⟨Dc4bcVerif.Model.Tasks.bakedIndices.toArray⟩; pure 0
